@@ -3,7 +3,7 @@ from vp.runner import Ob
 
 INFO = {
     "design_ref": "§4.17",
-    "functions": ["v2version._incr_numeric", "lexid.next_id (site-packages, as shipped)"],
+    "functions": ["v2version._incr_numeric", "lexid.next_id (site-packages, as shipped)", "v2version.format_version / parse_version_info (BUILD part)"],
     "bounds": "one step from every id '0'*z + str(v): z leading zeros, m significant digits, z+m <= 5 (quick) / <= 7 (thorough), "
               "v over the whole m-digit decade except all-9s; second step for ids shorter than 4 digits; closure assertion "
               "(successor has >= 4 digits, width grows by <= 1 beyond max(width, 4)) makes the one-step lemma inductive",
@@ -21,6 +21,11 @@ def obligations(tier):
         for z in range(0, maxw - m + 1):
             obs.append(Ob(f"L1.build_step[z={z},m={m}]", "c17.py", "build_step", {"z": z, "m": m}, timeout=t,
                           bounds=f"id = '{'0' * z}' + {m}-digit value"))
+    for m in range(1, maxw + 1):
+        for z in range(0, maxw - m + 1):
+            if m >= 5 and tier == "quick":
+                continue
+            obs.append(Ob(f"L3.build_rendering[z={z},m={m}]", "c17.py", "build_rendering", {"z": z, "m": m}, timeout=t))
     for m in range(1, 4):
         for z in range(0, 4 - m):
             obs.append(Ob(f"L2.second_step[z={z},m={m}]", "c17.py", "build_second_step", {"z": z, "m": m}, timeout=t))
